@@ -92,7 +92,7 @@ def build_corpus(tier, seed):
     cat = gen.rule_pattern_blocks()
     gstats["rule_catalogue_blocks"] = len(cat)
     groups["Xcat"] = [{"cmd": "opt", "text": t} for t in cat]
-    shared = gen.shared_use_blocks(250 if tier == "quick" else 600, seed)
+    shared = gen.shared_use_blocks(250, seed)
     gstats["rule_shared_use"] = len(shared)
     groups["Xpair"] = [{"cmd": "opt", "text": t} for t in pairs + shared] + [{"cmd": "opt", "text": t} for t in (mem3 if tier == "quick" else [])]
     gstats["rule_pairs"] = len(pairs)
